@@ -27,8 +27,10 @@ def levels(tier):
         return [
             {"name": "short-n1", "pools": [short], "absent": [1, 1], "n": 1, "alphabet": alpha, "backends": ["memory", "file"], "links_batch": 2},
             {"name": "short-n2", "pools": [short], "absent": [1], "n": 2, "alphabet": ["page", "links", "we"], "backends": ["memory"], "links_batch": 1},
-            {"name": "long-n1", "pools": longs[:3] + [[[221], [1], [295, 1]], [[1, 148, 1], [1, 148], [2, 75, 1]]], "sparse": True, "absent": [74, 1], "n": 1, "alphabet": alpha,
-             "backends": ["file", "memory"], "links_batch": 2},
+            {"name": "long-n1", "pools": longs[:3] + [[[221], [1], [295, 1]], [[1, 148, 1], [1, 148], [2, 75, 1]]], "sparse": True, "absent": [74], "n": 1, "alphabet": ["page", "links", "we"],
+             "backends": ["file"], "links_batch": 2},
+            {"name": "long-mem-n1", "pools": [longs[0], [[1, 148, 1], [1, 148], [2, 75, 1]]], "sparse": True, "absent": [74], "n": 1,
+             "alphabet": ["page", "links"], "backends": ["memory"], "links_batch": 2},
             {"name": "mixed-n1", "pools": [[[1], [2, 1], [1, 2]], [[2], [1, 1], [2, 2]]], "absent": [2], "n": 1, "alphabet": alpha,
              "backends": ["memory"], "links_batch": 2},
             {"name": "clear-n1", "pools": [short], "absent": [1], "n": 1, "prelude": [["links", [[0, 1]]], ["clear"]], "alphabet": ["page", "links"],
